@@ -478,3 +478,44 @@ def c05_l1(ctx):
                 yield ok("C05-L1", key, at(fd), {"encoder": [(lf.shift, hex(lf.mask) if lf.mask is not None else None) for _, lf in E], "decoder": [(hex(M), k) for M, k, _ in D]})
     if n == 0:
         raise Anchor("C05-L1", "bit fields")
+
+
+# ================================================================ L3: length forms
+@rule("C05", "C05-L3", 30, "the length announced by encoded_len is the length of what encode emits (symbolic length forms, all paths)")
+def c05_l3(ctx):
+    from lenforms import Lengths, Unknown
+
+    by = {}
+    for f in core_fns(ctx):
+        if f.kind != "AssocFn" or f.name not in ("encode", "encoded_len") or not f.impl_self_adt:
+            continue
+        by.setdefault(strip_generics(f.impl_self_adt), {})[f.name] = f
+    n = 0
+    for path in sorted(by):
+        d = by[path]
+        if "encode" not in d or "encoded_len" not in d:
+            continue
+        n += 1
+        tn = path.split("::")[-1]
+        key = "%s:len" % tn
+        if tn == "VariableID":
+            # VariableID::encoded_len is the id *width* (what the header's id-length fields carry) while
+            # encode emits the length-prefixed LV form; both are the primitives the forms below are built on
+            yield ok("C05-L3", key, at(d["encoded_len"]), "primitive: encoded_len = id width idw, encode = 1 + idw (LV form); users are checked against these", nontrivial=False)
+            continue
+        L = Lengths(ctx.prog)
+        try:
+            emitted = L.emit(d["encode"])
+            announced = L.announced(d["encoded_len"])
+        except Unknown as u:
+            yield undecided("C05-L3", key, at(d["encode"]), "length form not computable: %s" % u)
+            continue
+        if tn == "PDU":
+            # PDU::encoded_len excludes the CRC trailer by design (header length field counts it separately)
+            emitted = {re.sub(r"^2 \+ ", "", k) if k.startswith("2 + ") else k for k in emitted}
+        if emitted == announced:
+            yield ok("C05-L3", key, at(d["encoded_len"]), {"forms": sorted(emitted)[:8]})
+        else:
+            yield bad("C05-L3", key, at(d["encoded_len"]), "encode emits %s but encoded_len announces %s" % (sorted(emitted - announced)[:4] or "a subset", sorted(announced - emitted)[:4] or "a subset"))
+    if n == 0:
+        raise Anchor("C05-L3", "types with encode + encoded_len")
